@@ -45,6 +45,7 @@
 package interp // import "golang.org/x/tools/go/ssa/interp"
 
 import (
+	"sync"
 	"fmt"
 	"go/token"
 	"go/types"
@@ -88,7 +89,26 @@ type interpreter struct {
 	unsafeData map[*value][]value
 	onceDone   map[*value]bool
 	syncMaps   map[*value]*smap
+
+	// thread mode: interpreted goroutines run on native goroutines; the
+	// harness scheduler (zzverif.RunThreads) guarantees only one is ever
+	// runnable, so interpreter state needs no locking. abort is closed when
+	// any thread ends the run (or when the run is over) so that every
+	// goroutine parked in a channel operation unwinds.
+	abort     chan struct{}
+	abortOnce sync.Once
+	abortVal  interface{}
+	threads   int
 }
+
+// verifInterpreted names the zzverif functions whose bodies the engine runs
+// (the cooperative scheduler); everything else in zzverif is an intrinsic.
+var verifInterpreted = map[string]bool{
+	"Go": true, "Yield": true, "WaitUntil": true, "RunThreads": true, "threadMain": true, "ThreadID": true, "init": true,
+}
+
+// threadAbort unwinds a parked goroutine after the run has ended.
+type threadAbort struct{}
 
 type deferred struct {
 	fn    value
@@ -249,7 +269,7 @@ func visitInstr(fr *frame, instr ssa.Instruction) continuation {
 		panic(targetPanic{fr.get(instr.X)})
 
 	case *ssa.Send:
-		fr.get(instr.Chan).(chan value) <- fr.get(instr.X)
+		fr.i.chanSend(fr.get(instr.Chan).(chan value), fr.get(instr.X))
 
 	case *ssa.Store:
 		addr := fr.get(instr.Addr).(*value)
@@ -522,7 +542,7 @@ func callSSA(i *interpreter, caller *frame, callpos token.Pos, fn *ssa.Function,
 	}
 	if fn.Parent() == nil {
 		name := fn.String()
-		if fn.Pkg != nil && strings.HasSuffix(fn.Pkg.Pkg.Path(), "/zzverif") {
+		if fn.Pkg != nil && strings.HasSuffix(fn.Pkg.Pkg.Path(), "/zzverif") && !verifInterpreted[fn.Name()] {
 			return verifIntrinsic(fr, fn.Name(), args)
 		}
 		if stub := i.stubs[name]; stub != nil && (caller == nil || caller.fn != stub) {
@@ -619,7 +639,7 @@ func isTargetPanic(r interface{}) bool {
 // signal, capturing the interpreter stack once.
 func asEngineError(r interface{}) interface{} {
 	switch r := r.(type) {
-	case targetPanic, runtimePanic, budgetExceeded, assumeFailed, violation, exitPanic:
+	case targetPanic, runtimePanic, budgetExceeded, assumeFailed, violation, exitPanic, threadAbort:
 		return r
 	case engineError:
 		if r.stack == "" {
